@@ -368,7 +368,8 @@ def handle (case impl : List String) : Verdict :=
     | some ab, some lb, some hb =>
       -- (with the cap of the `fix:` for wrap-above-max: `if min < max && w > max { max } else { w }`)
       let w0 := add lb (remEuclidModel be (sub ab lb) (sub hb lb))
-      let model := if lt lb hb && lt hb w0 then hb else w0
+      -- std / fallback / libm: literally `F32.wrapStd`, the function of `Props.C18.wrap_f32_in_range`
+      let model := if be == "mm" then (if lt lb hb && lt hb w0 then hb else w0) else F32.wrapStd ab lb hb
       let tags := ["wrap", be, "a-" ++ inputTag ab]
       match bits? i0 with
       | none => Verdict.mkDiff s!"unreadable output {i0}" tags
